@@ -1000,15 +1000,20 @@ class TrioWorkerRun(WorkerRun):
             trun.WorkerContext = obs_context_class(WorkerContext, self)
             trio.SocketListener.accept = accept  # type: ignore
             random.seed(self.seed * 1000003 + int(self.script.get("seed", 0)))
-            try:
-                trio._core._run._r.seed(self.seed)
-            except AttributeError:
-                pass
+            # reproducible scheduling: batches sorted by task creation order, then shuffled by the
+            # seeded generator (without this, tasks woken by equal deadlines run in memory-address order)
+            trio_run = trio._core._run
+            saved_det = getattr(trio_run, "_ALLOW_DETERMINISTIC_SCHEDULING", None)
+            if saved_det is not None:
+                trio_run._ALLOW_DETERMINISTIC_SCHEDULING = True
+            trio_run._r.seed(self.seed * 1000003 + int(self.script.get("seed", 0)))
             trio.run(self._main, clock=trio.testing.MockClock(autojump_threshold=0))
         finally:
             self.sealed = True
             trun.WorkerContext = saved_ctx
             trio.SocketListener.accept = saved_accept  # type: ignore
+            if getattr(trio._core._run, "_ALLOW_DETERMINISTIC_SCHEDULING", None) is not None:
+                trio._core._run._ALLOW_DETERMINISTIC_SCHEDULING = False
             for cl in self.clients.values():
                 if cl.sock is not None and not cl.closed:
                     cl.sock.close()
